@@ -367,3 +367,85 @@ def rule_equal_lengths(ctx, m):
             rel = [f.text(x) for x in f.walk(top) if f.nodes[x]["k"] == "BinaryOperator" and f.nodes[x]["op"] in ("<", "<=", ">", ">=") and "Length()" in f.text(x)]
             r.ob(f.sig, f.text(top)[:80], bool(eqs) and not rel, "lengths compared with %s" % ("==" if eqs and not rel else (rel or "nothing") ), f.loc(c))
     return r
+
+
+def rule_inline_if_ranges(ctx, m):
+    """PR-subrange: the renderer prints the sub-tags of an inline-if as part of its true or false value and computes slice lengths
+    as differences of tag offsets; a sub-tag outside both values (another attribute, text after the values) or offsets that do not
+    fit the record's 16-bit fields make such a difference wrap (a heap overflow in StringStream::Write).  In the code that completes
+    an inline-if record, (a) a value derived from each sub-tag's offsets is compared with bounds derived from TrueOffset/TrueLength
+    and from FalseOffset/FalseLength, (b) the span of the tag is compared with the 16-bit limit, and (c) the record is dropped
+    (storage->Drop) on a path of that code.  Decided by taint flow inside the arm, not by the text of the comparisons."""
+    r = Rule("PR-subrange", "an inline-if record is kept only if its span fits 16 bits and every sub-tag lies inside the true or the false value", floor=3)
+    pf = m.fn("Qentem::TemplateCore::parse")
+    ctx.note_fn(pf)
+    arm = None
+    for sw in astq.nodes_of(pf, "SwitchStmt"):
+        for labels, stmts in astq.switch_arms(pf, sw):
+            if [(l[0] or "").split("::")[-1] for l in labels] == ["InLineIf"] and "GetType" in pf.text(pf.nodes[sw]["cond"]):
+                if any(astq.calls(pf, "GetInLineIfTag", s_) for s_ in stmts):
+                    arm = stmts
+    if arm is None:
+        r.broke("parse: the code that completes an inline-if record (case TagType::InLineIf under the tag-end match) was not found")
+        return r
+    nodes = [x for s_ in arm for x in pf.walk(s_)]
+    decls = {}
+    for x in nodes:
+        if pf.nodes[x]["k"] == "DeclStmt":
+            for d in pf.nodes[x]["decls"]:
+                if "d" in d and d.get("init", -1) >= 0:
+                    decls[d["d"]] = d
+    assigns = [(pf.nodes[x]["ch"][0], pf.nodes[x]["ch"][1]) for x in nodes if pf.nodes[x]["k"] == "BinaryOperator" and pf.nodes[x]["op"] == "="]
+
+    def derived(seed_fields, via_subtag=False):
+        """decl ids of locals whose value derives from member accesses named in seed_fields"""
+        def mentions(nid, tainted):
+            for y in pf.walk(nid):
+                n = pf.nodes[y]
+                if n["k"] in ("MemberExpr", "CXXDependentScopeMemberExpr") and n.get("n") in seed_fields:
+                    base_t = pf.text(n["ch"][0]) if n.get("ch") else ""
+                    is_sub = "GetVariableTag()" in base_t or "GetMathTag()" in base_t or any(pf.nodes[z].get("d") in sub_refs for z in pf.walk(y))
+                    if via_subtag == is_sub:
+                        return True
+                if n["k"] == "DeclRefExpr" and n.get("d") in tainted:
+                    return True
+            return False
+        tainted = set()
+        changed = True
+        while changed:
+            changed = False
+            for did, d in decls.items():
+                if did not in tainted and mentions(d["init"], tainted):
+                    tainted.add(did)
+                    changed = True
+            for (lhs, rhs) in assigns:
+                ln = pf.nodes[pf.strip(lhs)]
+                if ln["k"] == "DeclRefExpr" and ln.get("d") not in tainted and mentions(rhs, tainted):
+                    tainted.add(ln["d"])
+                    changed = True
+        return tainted, mentions
+    # references to sub-tag records: locals initialised from Get*Tag() of a pointer walking SubTags
+    sub_refs = set(did for did, d in decls.items() if any(pf.call_simple_name(c) in ("GetVariableTag", "GetMathTag") for c in astq.calls(pf, None, d["init"])))
+    t_sub, men_sub = derived({"Offset", "EndOffset", "Length"}, via_subtag=True)
+    t_true, men_true = derived({"TrueOffset", "TrueLength"})
+    t_false, men_false = derived({"FalseOffset", "FalseLength"})
+    cmps = [x for x in nodes if pf.nodes[x]["k"] == "BinaryOperator" and pf.nodes[x]["op"] in ("<", "<=", ">", ">=")]
+
+    def side_in(nid, tainted, men):
+        return men(nid, tainted)
+    pairs_true = [x for x in cmps if any(side_in(a, t_sub, men_sub) for a in pf.nodes[x]["ch"]) and any(side_in(a, t_true, men_true) for a in pf.nodes[x]["ch"])]
+    pairs_false = [x for x in cmps if any(side_in(a, t_sub, men_sub) for a in pf.nodes[x]["ch"]) and any(side_in(a, t_false, men_false) for a in pf.nodes[x]["ch"])]
+    drops = [c for c in nodes if pf.nodes[c]["k"] in ("CallExpr", "CXXMemberCallExpr") and pf.call_simple_name(c) == "Drop"]
+    where = pf.loc(arm[0])
+    r.ob(pf.q, "sub-tags against the true value", len(pairs_true) >= 2 and bool(drops), "%d comparison(s) relate a sub-tag's offsets to bounds derived from TrueOffset/TrueLength%s" % (
+        len(pairs_true), "" if len(pairs_true) >= 2 else ": a sub-tag outside the value is rendered with a wrapped slice length"), where)
+    r.ob(pf.q, "sub-tags against the false value", len(pairs_false) >= 2 and bool(drops), "%d comparison(s) relate a sub-tag's offsets to bounds derived from FalseOffset/FalseLength" % len(pairs_false), where)
+    wide = []
+    for x in cmps:
+        for a, b in (pf.nodes[x]["ch"], pf.nodes[x]["ch"][::-1]):
+            bv = m.eval_nodes(pf.nodes, pf.strip_casts(b))
+            if bv in (0xFFFF, 0x10000, 65535, 65536) and "Offset" in pf.text(a):
+                wide.append(x)
+    r.ob(pf.q, "span fits the 16-bit fields", bool(wide) and bool(drops), "%s" % ("the span of the tag is compared with the 16-bit limit" if wide else
+         "nothing compares the span of the tag with 65535 before it is stored in SizeT16 fields: the offsets of a longer tag are truncated"), where)
+    return r
